@@ -28,7 +28,7 @@ def table : List (String × Wire.Handler) :=
   , ("lex", Lexer.Drv.handle)
   , ("conc", Conc.Drv.handle)
   , ("extr", Extract.Drv.handle)
-  , ("prn", Printer.Drv.handle)
+  , ("printer", Printer.Drv.handle)
   , ("cache", Cache.Drv.handle)
   , ("encd", Encoding.Drv.handle)
   , ("inh", Inherit.Drv.handle)
